@@ -301,6 +301,9 @@ func (g *gen) writeExprBinaryOp(b *buffer, n *a.Expr, depth uint32) error {
 		}
 		b.printf("wuffs_base__u%d__sat_%s", uBits, uOp)
 		opName = ", "
+		// The function call already has the right type. An overall cast would
+		// also misplace the parentheses: "f((T)(x, y))" instead of "f(x, y)".
+		overallCast = false
 
 	case t.IDXBinaryAs:
 		return g.writeExprAs(b, n.LHS().AsExpr(), n.RHS().AsTypeExpr(), depth)
